@@ -7,7 +7,7 @@ MIN2 = {"hma", "linreg"}
 ENC = ["src/helpers/methods.rs: MA::init, MAInstance::next", "src/methods/*.rs: the selected moving average's new/next", "src/core/window.rs"]
 
 
-def xj(e, kind, n, t, extra, what, tier="q", core=True, cost=2, timeout=900):
+def xj(e, kind, n, t, extra, what, tier="q", core=True, cost=2, timeout=None):
     a = {"kind": kind, "n": n, "t": t}
     a.update(extra)
     return X("c15_" + e, a, what, tier=tier, core=core, cost=cost, timeout=timeout, encodes=ENC)
